@@ -38,6 +38,7 @@ KNOWN_FILE = os.path.join(HERE, 'known_findings.json')
 
 CASE_CPU_SECONDS = 4.0
 MAX_VIOL_PER_SIG_PER_WORKER = 3
+MAX_PRINTED_SIGS = 16
 DISTINCT_CAP_PER_WORKER = 400000
 
 
@@ -287,13 +288,18 @@ def check(pid, tier='quick', jobs=None, seed=0):
             print('KNOWN-FINDING: property=%s %s [sig=%s, %d case(s)]'
                   % (pid, known[sig].get('text', ''), sig, n))
         else:
+            rc = 1
+            new += 1
+            if new > MAX_PRINTED_SIGS:
+                continue
             path = write_replay(pid, v)
             print('VIOLATION property=%s replay=%s' % (pid, path))
             print('  clause=%s sig=%s cases=%d' % (v['clause'], sig, n))
             print('  detail=%s' % (json.dumps(v['detail'], default=repr)[:600]))
             print('  case=%s' % (json.dumps(v['case'], default=repr)[:600]))
-            rc = 1
-            new += 1
+    if new > MAX_PRINTED_SIGS:
+        print('  ... and %d more violation signatures (not printed)'
+              % (new - MAX_PRINTED_SIGS))
 
     distinct = len(agg['distinct']) + agg['distinct_overflow']
     coverage = {
